@@ -76,6 +76,14 @@ def run(ch, build):
                 {"op": "open", "user": "admin", "password": b"secret".hex(), "priv": 4, "lookup": True, "suites": [list(su)]},
                 {"op": "cmd", "conn": "session", "cmd": {"name": "raw", "p": [0x30, 1, 0, 0], "hex": bytes(rng.randrange(256) for _ in range(n)).hex()}, "script": ["ok"]},
                 {"op": "cmd", "conn": "session", "cmd": {"name": "getdeviceid"}, "script": ["ok"]}]})
+    # long sessions: hundreds of datagrams under one K2 (an exporter's normal life); every IV must still be new
+    for su in (hist.SUITES[0], hist.SUITES[8]) if ch.quick() else hist.SUITES:
+        nlong = 330 if ch.quick() else 1500
+        pool = [{"name": "getdeviceid"}, {"name": "sensorreading", "p": [3, 0]}, {"name": "getsdrrepoinfo"}]
+        scns.append({"bmc": conn.default_bmc(seed=77, suites=[[100, su[0], su[1], su[2]]]), "timeout_ms": 40, "steps": [
+            {"op": "open", "user": "admin", "password": b"secret".hex(), "priv": 4, "lookup": True, "suites": [list(su)]}] +
+            [{"op": "cmd", "conn": "session", "cmd": pool[i % 3] if i % 7 else rng.choice(pool), "script": ["ok"] if i % 50 else ["busy", "ok"]}
+             for i in range(nlong)]})
     outs = conn.run_scenarios(scns)
     hist.replay(ch, scns, outs, (hook,), "c03")
     # request data must equal the Spec encoding of the request (SpecParse round trip is C06; here: parse what the BMC saw)
